@@ -277,7 +277,7 @@ Parser::Tokenizer::int64(int64_t & result, int base, bool allowSign, const SBuf:
     cutoff /= static_cast<uint64_t>(base);
 
     int any = 0, c;
-    int64_t acc = 0;
+    uint64_t acc = 0; // unsigned: the magnitude of INT64_MIN does not fit into int64_t
     do {
         c = *s;
         if (xisdigit(c)) {
@@ -301,13 +301,12 @@ Parser::Tokenizer::int64(int64_t & result, int base, bool allowSign, const SBuf:
     if (any == 0) // nothing was parsed
         return false;
     if (any < 0) {
-        acc = neg ? INT64_MIN : INT64_MAX;
         errno = ERANGE;
         return false;
-    } else if (neg)
-        acc = -acc;
+    }
 
-    result = acc;
+    // negate in unsigned arithmetic; acc never exceeds the magnitude of the limit
+    result = static_cast<int64_t>(neg ? -acc : acc);
     return success(s - range.rawContent());
 }
 
